@@ -312,6 +312,15 @@ def rules(rep, facts):
         from .rules_c11 import r7_widening
         r2c_key_stash(rep, facts, rid='C17/R9')
         r7_widening(rep, facts, rid='C17/R10')
+        # "the text decodes to v": an entry dropped without an error (a None somewhere below the value swallowed as if the value itself were None)
+        # makes the output decode to another value
+        from .rules_c07 import r2_none_policy, r2b_flag_locality, r12_variant_tag
+        r2_none_policy(rep, facts, prefixes=('toml_edit::ser', 'toml::ser'))       # the text serializers; the Value route (toml::value) is C07 / C13 matter
+        rep.relabel('C07/R2', 'C17/R12', 'nothing is dropped from the output without an error: ')
+        r2b_flag_locality(rep, facts)
+        rep.relabel('C07/R2b', 'C17/R13', '')
+        r12_variant_tag(rep, facts)
+        rep.relabel('C07/R12', 'C17/R14', '')
     if 'toml' in facts.crates:
         from .rules_c16 import map_identity
         R6 = rep.rule('C17/R6', 'the decoded text equals the value whatever order the serializer emitted the entries in: equality of toml::Map is the '
